@@ -11,7 +11,9 @@ from pysmt.environment import Environment, push_env, pop_env
 from .termio import BOOL, INT, REAL, mk_type, sort_of, sort_str
 
 UNIVERSE_SYMS = {"a": BOOL, "b": BOOL, "x": INT, "y": INT, "r": REAL, "u": ("BV", 2),
-                 "f": ("Fun", INT, (INT,)), "st": "String", "A": ("Array", INT, INT)}
+                 "f": ("Fun", INT, (INT,)), "st": "String", "A": ("Array", INT, INT),
+                 # a user symbol whose name looks like the library's fresh names
+                 "FV1": BOOL}
 FRESH_RE = re.compile(r"^(FV|ack|__x|\.def_|_assertion_|x!)(\d+)$")
 
 COMMUTATIVE = {op.AND, op.OR, op.PLUS, op.TIMES, op.IFF, op.EQUALS, op.BV_AND, op.BV_OR, op.BV_XOR,
@@ -38,6 +40,11 @@ def build_universe(env):
     F["F11"] = m.Equals(m.StrLength(st), x)
     F["F12"] = m.StrContains(st, m.String("a"))
     F["F13"] = m.Equals(m.Select(m.Store(A, x, m.Int(1)), y), m.Select(A, y))
+    # the simplifier is not idempotent on F14: its result is (structurally) F15, which simplifies further
+    F["F14"] = m.Plus(m.Minus(m.Int(3), x), m.Plus(m.Int(1), m.Int(1)))
+    F["F15"] = m.Minus(m.Plus(m.Int(3), m.Int(2)), x)
+    F["F16"] = m.LE(F["F15"], y)
+    F["F17"] = m.Or(a, m.And(S["FV1"], b))
     return S, F
 
 
@@ -158,7 +165,7 @@ def has_fresh(f):
         if n in seen:
             continue
         seen.add(n)
-        if n.is_symbol() and (FRESH_RE.match(n.symbol_name()) or n.symbol_name() not in UNIVERSE_SYMS):
+        if n.is_symbol() and n.symbol_name() not in UNIVERSE_SYMS:
             return True
         stack.extend(n.args())
     return False
@@ -189,9 +196,11 @@ def _theory_key(t):
 
 
 def _norm_fresh_text(s):
-    nums = sorted(set(int(x) for x in re.findall(r"(?:FV|ack|__x)(\d+)", s)))
+    names = [m_ for m_ in re.findall(r"(?:FV|ack|__x)\d+", s) if m_ not in UNIVERSE_SYMS]
+    nums = sorted(set(int(re.search(r"\d+", x).group()) for x in names))
     ren = {n: i for i, n in enumerate(nums)}
-    return re.sub(r"(FV|ack|__x)(\d+)", lambda mo: "%s#%d" % (mo.group(1), ren[int(mo.group(2))]), s)
+    return re.sub(r"(FV|ack|__x)(\d+)", lambda mo: mo.group(0) if mo.group(0) in UNIVERSE_SYMS
+                  else "%s#%d" % (mo.group(1), ren[int(mo.group(2))]), s)
 
 
 def ackey(f):
@@ -205,12 +214,12 @@ def ackey(f):
         seen.add(n)
         if n.is_symbol():
             mo = FRESH_RE.match(n.symbol_name())
-            if mo:
+            if mo and n.symbol_name() not in UNIVERSE_SYMS:
                 fresh[n.symbol_name()] = (mo.group(1), int(mo.group(2)))
         if n.is_quantifier():
             for v in n.quantifier_vars():
                 mo = FRESH_RE.match(v.symbol_name())
-                if mo:
+                if mo and v.symbol_name() not in UNIVERSE_SYMS:
                     fresh[v.symbol_name()] = (mo.group(1), int(mo.group(2)))
         if n.is_function_application():
             stack.append(n.function_name())
